@@ -270,7 +270,19 @@ def check_font(t, order, boxes, exact, spec, flavour, where, has_empty_composite
                 boxes[n] = sb if sb not in (None, (0, 0, 0, 0)) else None
             elif boxes[n] is not None or sb not in (None, (0, 0, 0, 0)):
                 tol = 0 if exact[n] else 1
-                if boxes[n] is None or sb is None or not close(sb, boxes[n], tol):
+                alt = None
+                if g.isComposite() and boxes[n] is not None and has_empty_composite:
+                    # a component that is itself a composite rendering nothing carries fontTools' conventional box (see above); fontTools' composite
+                    # fast path unions it, shifted by the component offset, into the parent's box
+                    alt = list(boxes[n])
+                    for c in g.components:
+                        cg = t["glyf"][c.glyphName]
+                        if cg.isComposite() and hasattr(cg, "xMin") and not any(True for _ in R.resolve(gi, c.glyphName)):
+                            alt = [min(alt[0], cg.xMin + c.x), min(alt[1], cg.yMin + c.y), max(alt[2], cg.xMax + c.x), max(alt[3], cg.yMax + c.y)]
+                    alt = tuple(alt)
+                if alt is not None and sb is not None and alt != tuple(boxes[n]) and close(sb, alt, tol):
+                    boxes[n] = sb
+                elif boxes[n] is None or sb is None or not close(sb, boxes[n], tol):
                     raise Violation("glyf bounding box does not match the glyph's points (%s)" % where, glyph=n, stored=sb, recomputed=boxes[n])
                 if not exact[n]:
                     boxes[n] = sb  # rounding of transformed component points is fontTools' convention: keep the stored box
